@@ -2,7 +2,6 @@
 import random
 
 META = {
-    "disabled": True,
     "level": "model_checking",
     "text": "TLC exhaustively checks a model of the write-ahead discipline shared by tbtc.walletRegistry and beacon registry.Groups "
             "(storage: current and archived directories per wallet/group with one entry per member index; in-memory map) under every "
